@@ -112,13 +112,12 @@ where
     ) -> bool {
         if let Some(node) = queue.pop() {
             for edge in node.iter() {
-                let edge = edge.reverse();
                 let v = edge.1.clone();
                 if self.method.exec(&edge) && !visited.contains(v.key()) {
                     visited.insert(v.key().clone());
                     queue.push(v.clone());
-                    self.recurse_preorder(result, visited, queue);
                     result.push(edge);
+                    self.recurse_preorder(result, visited, queue);
                 }
             }
         }
